@@ -278,7 +278,11 @@ func vhSet(mask, variant int) []*bgp.Advertisement {
 			continue
 		}
 		_, n, _ := net.ParseCIDR(p)
-		a := &bgp.Advertisement{Prefix: n, LocalPref: uint32(100 + 100*variant)}
+		lp := uint32(100 + 100*variant)
+		if variant == 2 {
+			lp = 200 // as variant 1 without its community (an attribute-only change that removes a community)
+		}
+		a := &bgp.Advertisement{Prefix: n, LocalPref: lp}
 		if variant == 1 {
 			a.Communities = []community.BGPCommunity{community.VerifLegacy(1, 100)}
 		}
@@ -379,9 +383,10 @@ func VerifSession(steps, mode, fault int) {
 		switch vr.Choose(3) {
 		case 0: // a new route set is requested (possibly empty, possibly only attributes change)
 			// menu: {}, {p0,p1} plain, {p0,p1} with other attributes (attribute-only change),
-			// {p1,p2} with those attributes (p1 unchanged, p0 withdrawn, p2 new), {p0} plain
-			k := vr.Choose(5)
-			last = vhSet([]int{0, 3, 3, 6, 1}[k], []int{0, 0, 1, 1, 0}[k])
+			// {p1,p2} with those attributes (p1 unchanged, p0 withdrawn, p2 new), {p0} plain,
+			// {p0,p1} with those attributes minus the community
+			k := vr.Choose(6)
+			last = vhSet([]int{0, 3, 3, 6, 1, 3}[k], []int{0, 0, 1, 1, 0, 2}[k])
 			vr.Assert(sess.Set(last...) == nil, "Set failed")
 		case 1: // the peer drops the current connection
 			lock()
